@@ -37,6 +37,11 @@ type S struct {
 	A int
 	P *int
 }
+type KS struct {
+	N int
+	S string
+}
+type NS string
 type Inner struct{ N int }
 type Outer struct {
 	In *Inner
@@ -68,6 +73,30 @@ func ctxMakers() map[string]func() map[string]interface{} {
 				"u": map[string]interface{}{"b": 1, "a": 2},
 				"t": map[string]interface{}{"d": 3, "c": 4, "e": 5},
 			}, "m2": map[string]interface{}{"v": map[string]interface{}{"z": 0}}}
+		},
+		"boolKeys": func() map[string]interface{} {
+			return map[string]interface{}{"m": map[bool]string{true: "yes", false: "no"}, "m2": map[bool]string{false: "non"}}
+		},
+		"structKeys": func() map[string]interface{} {
+			return map[string]interface{}{"m": map[KS]string{{1, "b"}: "x", {1, "a"}: "y", {0, "z"}: "z"}, "m2": map[KS]string{{2, "c"}: "w"}}
+		},
+		"arrayKeys": func() map[string]interface{} {
+			return map[string]interface{}{"m": map[[2]int]string{{2, 1}: "p", {1, 2}: "q", {1, 1}: "r"}, "m2": map[[2]int]string{{0, 0}: "s"}}
+		},
+		"bigIntKeys": func() map[string]interface{} {
+			return map[string]interface{}{"m": map[int64]string{1<<53 + 2: "c", 1<<53 + 1: "b", 1 << 53: "a", -1<<53 - 1: "n"}, "m2": map[int64]string{1<<62 + 1: "z"}}
+		},
+		"bigUintKeys": func() map[string]interface{} {
+			return map[string]interface{}{"m": map[uint64]string{1<<63 + 2: "c", 1<<63 + 1: "b", 1 << 63: "a"}, "m2": map[uint64]string{7: "z"}}
+		},
+		"floatKeys": func() map[string]interface{} {
+			return map[string]interface{}{"m": map[float64]string{1.5: "a", -0.5: "b", 1e300: "c"}, "m2": map[float64]string{2.25: "d"}}
+		},
+		"ifaceMixed": func() map[string]interface{} {
+			return map[string]interface{}{"m": map[interface{}]interface{}{true: 1, false: 2, KS{1, "a"}: 3, KS{1, "b"}: 4}, "m2": map[interface{}]interface{}{1.5: "x", "1.5": "y"}}
+		},
+		"namedStrKeys": func() map[string]interface{} {
+			return map[string]interface{}{"m": map[NS]int{"b": 2, "a": 1, "c": 3}, "m2": map[NS]int{"d": 4}}
 		},
 		"ifaceKeys": func() map[string]interface{} {
 			return map[string]interface{}{"m": map[interface{}]interface{}{"s": 1, 2: "two", true: 3}, "m2": map[interface{}]interface{}{2: "deux"}}
